@@ -22,7 +22,7 @@ RULE = ('one evaluation = one resource supplied through one route (plain xml, .g
         'plain file; distinct = distinct (resource, route)')
 ASSUMPTIONS = ['gzip / xz / tar byte formats and tempfile are the standard library\'s; exercised, not modelled']
 
-ROUTES = ['xml', 'gz', 'xz', 'pkg', 'col', 'tar-file', 'tgz-file', 'txz-file', 'tar-pkg', 'tgz-pkg', 'tar-col', 'txz-col', 'mem']
+ROUTES = ['xml', 'xml-nl', 'gz', 'gz-noname', 'xz', 'pkg', 'col', 'tar-file', 'tgz-file', 'txz-file', 'tar-pkg', 'tgz-pkg', 'tar-col', 'txz-col', 'mem']
 
 
 def sha(path):
@@ -52,6 +52,17 @@ def build_route(d, route, res, k):
     if route == 'xml':
         plain.write_bytes(xml)
         return plain, None
+    if route == 'xml-nl':
+        # the same document with every start tag of a lexicon / its base written one attribute per line
+        import re as _re
+        xml2 = _re.sub(r'<(LexiconExtension|Lexicon|Extends|Requires) ', lambda m: '<' + m.group(1) + ('\n      ' if (k + len(xml)) % 2 else '\t'), xml.decode('utf-8'))
+        plain.write_bytes(xml2.encode('utf-8'))
+        return plain, None
+    if route == 'gz-noname':
+        # a gzip stream without the optional file-name field (gzip -n, gzip.compress, a pipe)
+        p = base / (fname + '.gz')
+        p.write_bytes(gzip.compress(xml, mtime=0))
+        return p, None
     if route == 'gz':
         p = base / (fname + '.gz')
         with gzip.open(p, 'wb') as f:
